@@ -89,3 +89,102 @@ def str_const(node):
     if isinstance(node, ast.Constant) and isinstance(node.value, str):
         return node.value
     return None
+
+
+# ---------------------------------------------------------------------------------------------
+# _copy_content: the copy is a snapshot (shared by C05 R-EAGER-SNAPSHOT and C16 R-SNAPSHOT-COPY)
+# ---------------------------------------------------------------------------------------------
+EAGER_CALLS = {"list", "tuple", "bytes", "bytearray", "sorted"}
+LAZY_CALLS = {"iter", "map", "filter", "zip", "reversed", "enumerate", "itertools.chain", "chain"}
+
+
+def _materialised(expr, defs, seen=()):
+    """'eager' | 'alias' | 'lazy' | 'unknown': was the value of expr created, fully evaluated, when
+    the statement ran?  Names are followed through their definitions (defs: name -> [value exprs])."""
+    if isinstance(expr, ast.Constant):
+        return "eager"
+    if isinstance(expr, (ast.ListComp, ast.SetComp, ast.DictComp)):
+        return "eager"
+    if isinstance(expr, ast.GeneratorExp):
+        return "lazy"
+    if isinstance(expr, (ast.List, ast.Tuple)):
+        kinds = {_materialised(e, defs, seen) for e in expr.elts}
+        return "eager" if kinds <= {"eager"} else sorted(kinds - {"eager"})[0]
+    if isinstance(expr, ast.Call):
+        d = dotted(expr.func) or ""
+        if d in EAGER_CALLS:
+            return "eager"
+        if d in LAZY_CALLS:
+            return "lazy"
+        if isinstance(expr.func, ast.Attribute) and expr.func.attr == "join" and isinstance(expr.func.value, ast.Constant):
+            return "eager"
+        return "alias"  # whatever object the callee hands out (it may be the source's own buffer)
+    if isinstance(expr, ast.Name):
+        if expr.id in seen or expr.id not in defs:
+            return "unknown"
+        kinds = {_materialised(v, defs, seen + (expr.id,)) for v in defs[expr.id]}
+        for k in ("alias", "lazy", "unknown"):
+            if k in kinds:
+                return k
+        return "eager"
+    if isinstance(expr, ast.IfExp):
+        kinds = {_materialised(expr.body, defs, seen), _materialised(expr.orelse, defs, seen)}
+        for k in ("alias", "lazy", "unknown"):
+            if k in kinds:
+                return k
+        return "eager"
+    return "unknown"
+
+
+def check_copy_content_snapshot(ctx, rule):
+    """Every object the copy's bytes callback can hand out was created, fully evaluated, while
+    _copy_content ran -- not the source's own buffer, not a lazy iterator over the source."""
+    cc = module_function(ctx, TESTCASE, "_copy_content")
+    ctx.analysed(cc)
+    p0 = cc.args.args[0].arg
+    Q = f"{TESTCASE}:_copy_content"
+    rets = [r for r in walk_shallow(cc, include_self=False) if isinstance(r, ast.Return)]
+    builds = [r.value for r in rets if isinstance(r.value, ast.Call) and (dotted(r.value.func) or "").split(".")[-1] == "Content" and len(r.value.args) == 2]
+    if len(builds) != len(rets) or not builds:
+        raise AnalysisError("anchor vanished: _copy_content no longer returns Content(<type>, <bytes callback>)")
+    defs = {}
+    for n in walk_shallow(cc, include_self=False):
+        if isinstance(n, ast.Assign):
+            for t in n.targets:
+                if isinstance(t, ast.Name):
+                    defs.setdefault(t.id, []).append(n.value)
+        elif isinstance(n, ast.AnnAssign) and n.value is not None and isinstance(n.target, ast.Name):
+            defs.setdefault(n.target.id, []).append(n.value)
+        elif isinstance(n, ast.AugAssign) and isinstance(n.target, ast.Name):
+            defs.setdefault(n.target.id, []).append(n.value)
+    nested = {f.name: f for f in walk_shallow(cc, include_self=False) if isinstance(f, FUNC_TYPES)}
+    for b in builds:
+        a0, a1 = b.args
+        ctx.check(rule, "the copy carries the source's content type", b, dotted(a0) == f"{p0}.content_type",
+                  f"the copy is built with {norm(a0)} instead of {p0}.content_type", construct=f"{Q}::content-type")
+        cb = a1 if isinstance(a1, ast.Lambda) else nested.get(dotted(a1) or "")
+        if cb is None:
+            ctx.check(rule, "the bytes callback of the copy resolves", b, False, f"cannot resolve the bytes callback {norm(a1)}", construct=f"{Q}::callback")
+            continue
+        touches = [n for n in ast.walk(cb) if isinstance(n, ast.Name) and n.id == p0]
+        ctx.check(rule, "the bytes callback does not go back to the source", cb, not touches,
+                  f"the callback of the copy reads {p0} when the bytes are asked for: the content is evaluated at reporting time, after the source may have changed or gone",
+                  construct=f"{Q}::callback-lazy")
+        outs = [cb.body] if isinstance(cb, ast.Lambda) else [r.value for r in ast.walk(cb) if isinstance(r, ast.Return) and r.value is not None]
+        local_defs = dict(defs)
+        if not isinstance(cb, ast.Lambda):
+            for n in walk_shallow(cb, include_self=False):
+                if isinstance(n, ast.Assign):
+                    for t in n.targets:
+                        if isinstance(t, ast.Name):
+                            local_defs.setdefault(t.id, []).append(n.value)
+        for o in outs:
+            names = [o.id] if isinstance(o, ast.Name) else []
+            sites = [v for nm in names for v in local_defs.get(nm, [])] or [o]
+            for v in sites:
+                kind = _materialised(v, local_defs)
+                why = {"alias": f"`{norm(v)[:60]}` may be the source's own buffer (whatever object the call hands out): later appends or rewrites of it change the bytes of the gathered copy",
+                       "lazy": f"`{norm(v)[:60]}` is evaluated lazily, when the bytes are asked for",
+                       "unknown": f"cannot tell whether `{norm(v)[:60]}` was materialised when the copy was made"}.get(kind, "")
+                ctx.check(rule, f"the callback hands out `{norm(v)[:50]}`: materialised when the copy was made", v, kind == "eager", why,
+                          construct=f"{Q}::bytes {norm(v)[:60]}")
